@@ -14,32 +14,56 @@ theorem counts_append (x y : List HLine) :
     ctxCount (x ++ y) = ctxCount x + ctxCount y := by
   simp [origCount, modCount, insCount, remCount, ctxCount]
 
+theorem counts_nil : origCount [] = 0 ∧ modCount [] = 0 ∧ insCount [] = 0 ∧ remCount [] = 0 ∧ ctxCount [] = 0 := by
+  simp [origCount, modCount, insCount, remCount, ctxCount]
+
+theorem counts_cons_ctx (x : Line) (hl : List HLine) :
+    origCount (.ctx x :: hl) = origCount hl + 1 ∧ modCount (.ctx x :: hl) = modCount hl + 1 ∧
+    insCount (.ctx x :: hl) = insCount hl ∧ remCount (.ctx x :: hl) = remCount hl ∧
+    ctxCount (.ctx x :: hl) = ctxCount hl + 1 := by
+  simp [origCount, modCount, insCount, remCount, ctxCount, cOrig, cMod]; omega
+
+theorem counts_cons_rem (x : Line) (hl : List HLine) :
+    origCount (.rem x :: hl) = origCount hl + 1 ∧ modCount (.rem x :: hl) = modCount hl ∧
+    insCount (.rem x :: hl) = insCount hl ∧ remCount (.rem x :: hl) = remCount hl + 1 ∧
+    ctxCount (.rem x :: hl) = ctxCount hl := by
+  simp [origCount, modCount, insCount, remCount, ctxCount, cOrig, cMod]; omega
+
+theorem counts_cons_ins (x : Line) (hl : List HLine) :
+    origCount (.ins x :: hl) = origCount hl ∧ modCount (.ins x :: hl) = modCount hl + 1 ∧
+    insCount (.ins x :: hl) = insCount hl + 1 ∧ remCount (.ins x :: hl) = remCount hl ∧
+    ctxCount (.ins x :: hl) = ctxCount hl := by
+  simp [origCount, modCount, insCount, remCount, ctxCount, cOrig, cMod]; omega
+
 theorem counts_ctx (xs : List Line) :
     origCount (xs.map .ctx) = xs.length ∧ modCount (xs.map .ctx) = xs.length ∧
     insCount (xs.map .ctx) = 0 ∧ remCount (xs.map .ctx) = 0 ∧ ctxCount (xs.map .ctx) = xs.length := by
   induction xs with
-  | nil => simp [origCount, modCount, insCount, remCount, ctxCount]
+  | nil => simpa using counts_nil
   | cons x xs ih =>
-    simp only [origCount, modCount, insCount, remCount, ctxCount] at ih ⊢
-    simp [cOrig, cMod, ih.1, ih.2.1, ih.2.2.1, ih.2.2.2.1, ih.2.2.2.2]; omega
+    obtain ⟨c1, c2, c3, c4, c5⟩ := counts_cons_ctx x (xs.map .ctx)
+    simp only [List.map_cons, List.length_cons]
+    omega
 
 theorem counts_rem (xs : List Line) :
     origCount (xs.map .rem) = xs.length ∧ modCount (xs.map .rem) = 0 ∧
     insCount (xs.map .rem) = 0 ∧ remCount (xs.map .rem) = xs.length ∧ ctxCount (xs.map .rem) = 0 := by
   induction xs with
-  | nil => simp [origCount, modCount, insCount, remCount, ctxCount]
+  | nil => simpa using counts_nil
   | cons x xs ih =>
-    simp only [origCount, modCount, insCount, remCount, ctxCount] at ih ⊢
-    simp [cOrig, cMod, ih.1, ih.2.1, ih.2.2.1, ih.2.2.2.1, ih.2.2.2.2]; omega
+    obtain ⟨c1, c2, c3, c4, c5⟩ := counts_cons_rem x (xs.map .rem)
+    simp only [List.map_cons, List.length_cons]
+    omega
 
 theorem counts_ins (xs : List Line) :
     origCount (xs.map .ins) = 0 ∧ modCount (xs.map .ins) = xs.length ∧
     insCount (xs.map .ins) = xs.length ∧ remCount (xs.map .ins) = 0 ∧ ctxCount (xs.map .ins) = 0 := by
   induction xs with
-  | nil => simp [origCount, modCount, insCount, remCount, ctxCount]
+  | nil => simpa using counts_nil
   | cons x xs ih =>
-    simp only [origCount, modCount, insCount, remCount, ctxCount] at ih ⊢
-    simp [cOrig, cMod, ih.1, ih.2.1, ih.2.2.1, ih.2.2.2.1, ih.2.2.2.2]; omega
+    obtain ⟨c1, c2, c3, c4, c5⟩ := counts_cons_ins x (xs.map .ins)
+    simp only [List.map_cons, List.length_cons]
+    omega
 
 /-- line counts of one valid opcode -/
 theorem counts_op (a b : List Line) (o : Op) (hv : validOp a b o = true) :
@@ -111,5 +135,93 @@ theorem counts_chain (a b : List Line) (ops : List Op) (i j ei ej : Nat)
         rw [List.getLast?_cons_cons] at hl
         exact r5 l hl
     · simp at hv
+
+def totalIns (hs : List Hunk) : Nat := (hs.map (fun h => insCount h.lines)).sum
+def totalRem (hs : List Hunk) : Nat := (hs.map (fun h => remCount h.lines)).sum
+
+theorem stats_eq (hs : List Hunk) : stats hs = (totalIns hs, totalRem hs, hs.length) := rfl
+
+/-- per-group facts: the hunk is well formed, and its insert/remove counts balance the positions -/
+theorem groups_wf (a b : List Line) (gs : List Group) (pi pj : Nat)
+    (hla : a.length < 2147483647) (hlb : b.length < 2147483647)
+    (hpi : pi ≤ a.length) (hpj : pj ≤ b.length)
+    (hv : validGroupsFrom a b pi pj gs = true) (hs : List Hunk) (hm : gs.mapM (groupHunk a b) = some hs) :
+    (∀ h ∈ hs, wfHunk h = true ∧ h.tail = none ∧ 1 ≤ h.origPos ∧ 1 ≤ h.modPos) ∧
+    totalIns hs + (a.length - pi) = totalRem hs + (b.length - pj) ∧ hs.length = gs.length := by
+  induction gs generalizing pi pj hs with
+  | nil =>
+    simp only [validGroupsFrom, decide_eq_true_eq] at hv
+    simp only [List.mapM_nil, Option.pure_def, Option.some.injEq] at hm
+    subst hm
+    have := congrArg List.length hv
+    simp only [List.length_drop] at this
+    simp [totalIns, totalRem, this]
+  | cons g gs ih =>
+    unfold validGroupsFrom at hv
+    match g, hv with
+    | o :: os, hv =>
+      simp only [Bool.and_eq_true, decide_eq_true_eq] at hv
+      obtain ⟨⟨⟨⟨hpi', hpj'⟩, hgap⟩, hgaplen⟩, hrest⟩ := hv
+      cases hc : validChain a b o.i1 o.j1 (o :: os) with
+      | none => simp [hc] at hrest
+      | some p =>
+        obtain ⟨ei, ej⟩ := p
+        simp only [hc] at hrest
+        obtain ⟨c1, c2, c3, c4, c5⟩ := counts_chain a b (o :: os) _ _ ei ej hc
+        have hle := validChain_le a b (o :: os) _ _ ei ej hc
+        cases hl : (o :: os).getLast? with
+        | none => simp at hl
+        | some l =>
+          obtain ⟨l1, l2, l3, l4⟩ := c5 l hl
+          simp only [List.mapM_cons, groupHunk, List.head?_cons, hl] at hm
+          cases hm' : gs.mapM (groupHunk a b) with
+          | none => simp [hm'] at hm
+          | some hs' =>
+            simp only [hm', Option.pure_def, Option.bind_eq_bind, Option.bind_some, Option.some.injEq] at hm
+            subst hm
+            obtain ⟨w, bal, len⟩ := ih ei ej l3 l4 hrest hs' hm'
+            refine ⟨?_, ?_, by simp [len]⟩
+            · intro h hh
+              rcases List.mem_cons.mp hh with rfl | hh
+              · simp only [wfHunk, small, tailOk, Bool.decide_and, Bool.and_eq_true, decide_eq_true_eq,
+                  decide_true, and_true]
+                refine ⟨⟨by omega, by omega, ?_⟩, trivial, by omega, by omega⟩
+                refine ⟨by omega, by omega, by omega, by omega⟩
+              · exact w h hh
+            · simp only [totalIns, totalRem, List.map_cons, List.sum_cons] at bal ⊢
+              omega
+
+theorem fixFirst_props (a b : List Line) (hs : List Hunk)
+    (hw : ∀ h ∈ hs, wfHunk h = true ∧ h.tail = none) :
+    (∀ h ∈ fixFirst a b hs, wfHunk h = true ∧ h.tail = none) ∧
+    totalIns (fixFirst a b hs) = totalIns hs ∧ totalRem (fixFirst a b hs) = totalRem hs ∧
+    (fixFirst a b hs).length = hs.length ∧ (hs ≠ [] → fixFirst a b hs ≠ []) := by
+  cases hs with
+  | nil => simp [fixFirst, totalIns, totalRem]
+  | cons h hs =>
+    have hh := hw h (by simp)
+    have hrest := fun x hx => hw x (List.mem_cons_of_mem _ hx)
+    have hw' := hh.1
+    simp only [wfHunk, small, Bool.decide_and, Bool.and_eq_true, decide_eq_true_eq] at hw'
+    simp only [fixFirst]
+    split
+    · split
+      · refine ⟨?_, by simp [totalIns, totalRem], by simp [totalIns, totalRem], by simp, by simp⟩
+        intro x hx
+        rcases List.mem_cons.mp hx with rfl | hx
+        · simp only [wfHunk, small, Bool.decide_and, Bool.and_eq_true, decide_eq_true_eq]
+          exact ⟨⟨hw'.1, hw'.2.1, ⟨by omega, hw'.2.2.1.2.1, hw'.2.2.1.2.2.1, hw'.2.2.1.2.2.2⟩, hw'.2.2.2⟩, hh.2⟩
+        · exact hrest x hx
+      · exact ⟨hw, rfl, rfl, rfl, by simp⟩
+    · split
+      · split
+        · refine ⟨?_, by simp [totalIns, totalRem], by simp [totalIns, totalRem], by simp, by simp⟩
+          intro x hx
+          rcases List.mem_cons.mp hx with rfl | hx
+          · simp only [wfHunk, small, Bool.decide_and, Bool.and_eq_true, decide_eq_true_eq]
+            exact ⟨⟨hw'.1, hw'.2.1, ⟨hw'.2.2.1.1, hw'.2.2.1.2.1, by omega, hw'.2.2.1.2.2.2⟩, hw'.2.2.2⟩, hh.2⟩
+          · exact hrest x hx
+        · exact ⟨hw, rfl, rfl, rfl, by simp⟩
+      · exact ⟨hw, rfl, rfl, rfl, by simp⟩
 
 end BreezyVerif.C39
